@@ -288,14 +288,6 @@ impl<P: ConnectionProvider> PoolState<P> {
         // number of servers) before returning an error — well past the point where clients have
         // given up and retransmitted the query.
         let deadline = Instant::now() + self.cx.options.timeout;
-        // The deadline also has to interrupt a round that is in flight: every per-server attempt
-        // carries its own full timeout, so a round started shortly before the deadline would
-        // otherwise run up to one more timeout past it.
-        let mut deadline_timer =
-            <<P as ConnectionProvider>::RuntimeProvider as RuntimeProvider>::Timer::delay_for(
-                self.cx.options.timeout,
-            );
-
         let mut servers = VecDeque::from(servers);
         let mut backoff = Duration::from_millis(20);
         let mut busy = SmallVec::<[Arc<NameServer<P>>; 2]>::new();
@@ -336,6 +328,15 @@ impl<P: ConnectionProvider> PoolState<P> {
                 }
                 return Err(err);
             }
+
+            // The deadline also has to interrupt a round that is in flight: every per-server attempt
+            // carries its own full timeout, so a round started shortly before the deadline would
+            // otherwise run up to one more timeout past it. The timer only starts counting when
+            // it is first polled, hence one per round, set to what is left of the budget.
+            let mut deadline_timer =
+                <<P as ConnectionProvider>::RuntimeProvider as RuntimeProvider>::Timer::delay_for(
+                    deadline.saturating_duration_since(Instant::now()),
+                );
 
             // Track all servers in the parallel batch so we can penalize any
             // that are still in-flight when a winner is found.
